@@ -250,6 +250,12 @@ let exec (toks : string list) =
        w := { !w with w_env = (str_of_string n, str_of_string v) :: List.filter (fun (k, _) -> string_of_str k <> n) (!w).w_env };
        line "env"
      | _ -> line "env rc=fail")
+  | ["envroot"; n] ->
+    (match string_of_hex n with
+     | Some n when n <> "" && not (String.contains n '=') ->
+       w := { !w with w_env = (str_of_string n, str_of_string !root) :: List.filter (fun (k, _) -> string_of_str k <> n) (!w).w_env };
+       line "envroot"
+     | _ -> line "envroot rc=fail")
   | ["unsetenv"; n] ->
     (match string_of_hex n with
      | Some n when n <> "" && not (String.contains n '=') ->
